@@ -42,7 +42,11 @@ pub trait Value: Clone + Debug + Eq + PartialEq {
 
     /// `==` decides equality of values
     proof fn lemma_eq_law(a: Self, b: Self)
-        ensures Self::obeys_eq_spec(), a.eq_spec(&b) == (a == b);
+        ensures a.eq_spec(&b) == (a == b);
+
+    /// ... and the executable `==` obeys its specification
+    proof fn lemma_obeys_eq_law()
+        ensures Self::obeys_eq_spec();
 
     /// `{:?}` formatting has no precondition
     proof fn lemma_debug_law(&self)
@@ -111,6 +115,8 @@ impl Value for il::Constant {
     proof fn lemma_eq_law(a: Self, b: Self) {
         broadcast use axiom_biguint_ext;
     }
+
+    proof fn lemma_obeys_eq_law() {}
 
     proof fn lemma_debug_law(&self) {}
 
